@@ -12,23 +12,32 @@ Theorem C16_reach_a32 : forall ra src fake m regs, (ra = 9 \/ ra = 12) ->
 Proof. exact arm_reach_a32. Qed.
 Print Assumptions C16_reach_a32.
 
-(* Thumb state, entry address = 0 mod 4 *)
+(* Thumb state, the repaired sequence ldr.w ip,[pc,#4] ; bx ip (Thumb-2), entry address = 0 mod 4: ... ; nop ; .word fake *)
 Theorem C16_reach_t32_aligned : forall src fake m regs,
   1 <= src -> src - 1 + 12 <= W32 -> (src - 1) mod 4 = 0 -> fake_ok fake ->
-  read m (src - 1) 12 = snd (arm_patch 12 7 src fake) -> fst (arm_patch 12 7 src fake) = src - 1 /\
+  read m (src - 1) 12 = snd (arm_patch 12 12 src fake) -> fst (arm_patch 12 12 src fake) = src - 1 /\
   exists st, rrun 2 {| rpc := src - 1; rthumb := true; rr := regs; rmem := m |} = Some st /\ landed fake st /\
-             rr st 7 = fake /\ (forall r, r <> 7 -> rr st r = regs r) /\ rmem st = m.
-Proof. exact arm_reach_t32_aligned. Qed.
+             rr st 12 = fake /\ (forall r, r <> 12 -> rr st r = regs r) /\ rmem st = m.
+Proof. exact arm_reach_t32ip_aligned. Qed.
 Print Assumptions C16_reach_t32_aligned.
 
-(* Thumb state, entry address = 2 mod 4: a NOP first, so that the literal stays word-aligned *)
+(* Thumb state, entry address = 2 mod 4: Align(PC,4) is two bytes lower, so the literal directly follows the bx: ... ; .word fake ; nop *)
 Theorem C16_reach_t32_unaligned : forall src fake m regs,
   1 <= src -> src - 1 + 12 <= W32 -> (src - 1) mod 4 = 2 -> fake_ok fake ->
-  read m (src - 1) 12 = snd (arm_patch 12 7 src fake) -> fst (arm_patch 12 7 src fake) = src - 1 /\
-  exists st, rrun 3 {| rpc := src - 1; rthumb := true; rr := regs; rmem := m |} = Some st /\ landed fake st /\
-             rr st 7 = fake /\ (forall r, r <> 7 -> rr st r = regs r) /\ rmem st = m.
-Proof. exact arm_reach_t32_unaligned. Qed.
+  read m (src - 1) 12 = snd (arm_patch 12 12 src fake) -> fst (arm_patch 12 12 src fake) = src - 1 /\
+  exists st, rrun 2 {| rpc := src - 1; rthumb := true; rr := regs; rmem := m |} = Some st /\ landed fake st /\
+             rr st 12 = fake /\ (forall r, r <> 12 -> rr st r = regs r) /\ rmem st = m.
+Proof. exact arm_reach_t32ip_unaligned. Qed.
 Print Assumptions C16_reach_t32_unaligned.
+
+(* the pinned Thumb sequence (ldr r7,[pc,#0] ; bx r7) also reached the fake in both alignments -- through r7 *)
+Theorem C16_reach_t16_pinned : forall src fake m regs, 1 <= src -> src - 1 + 12 <= W32 -> fake_ok fake ->
+  read m (src - 1) 12 = snd (arm_patch 12 7 src fake) -> ((src - 1) mod 4 = 0 \/ (src - 1) mod 4 = 2) ->
+  exists n st, rrun n {| rpc := src - 1; rthumb := true; rr := regs; rmem := m |} = Some st /\ landed fake st /\ rr st 7 = fake.
+Proof. intros src fake m regs H0 H1 Hf Hr [A|A].
+  - destruct (arm_reach_t32_aligned src fake m regs H0 H1 A Hf Hr) as (_ & st & R & L & V & _). exists 2%nat, st. auto.
+  - destruct (arm_reach_t32_unaligned src fake m regs H0 H1 A Hf Hr) as (_ & st & R & L & V & _). exists 3%nat, st. auto. Qed.
+Print Assumptions C16_reach_t16_pinned.
 
 (* the saved original bytes cover exactly the overwritten range: 12 bytes at the entry with the Thumb bit cleared *)
 Theorem C16_saved_range : forall ra rt src fake, 0 <= src < W32 ->
@@ -36,26 +45,31 @@ Theorem C16_saved_range : forall ra rt src fake, 0 <= src < W32 ->
 Proof. intros ra rt src fake H. exact (conj (arm_patch_len ra rt src fake) (arm_patch_addr ra rt src fake H)). Qed.
 Print Assumptions C16_saved_range.
 
-(* callee-saved registers: r12 (repaired ARM-state sequence) is not one ... *)
+(* callee-saved registers: r12 (both repaired sequences) is not one ... *)
 Theorem C16_callee_saved_a32 : ~ In 12 aapcs_preserved.
 Proof. exact arm_scratch_a32_ok. Qed.
 Print Assumptions C16_callee_saved_a32.
-(* ... r9 (pinned ARM state) and r7 (Thumb state, KNOWN FINDING) are *)
+(* ... r9 (pinned ARM state) and r7 (pinned Thumb state) are *)
 Theorem C16_callee_saved_refuted : In 9 aapcs_preserved /\ In 7 aapcs_preserved.
 Proof. exact arm_scratch_refuted_pinned. Qed.
 Print Assumptions C16_callee_saved_refuted.
 
-(* the constants of the model's encoder are those of the current Rust source (gen/SrcConsts.v is regenerated from it on every run) *)
+(* the constants of the model's encoder are those of the current Rust source (gen/SrcConsts.v is regenerated from it on every run),
+   and the scratch registers FOUND IN THE SOURCE are not callee-saved *)
 From Inj Require Import SrcTieArm.
 From Inj.gen Require Import SrcConsts.
-Theorem C16_source_words : a32_ldr SRC_RA = ARM_A32_LDR /\ a32_bx SRC_RA = ARM_A32_BX /\ t16_ldr_bx SRC_RT = ARM_T16_LDR_BX /\
-  0 <= SRC_RA < 16 /\ 0 <= SRC_RT < 8 /\ ARM_T16_PAD = 0 /\ ARM_PATCH_SIZE = 12 /\ ARM_T16_NOP = [0xC0; 0x46] /\ ARM_ROTATE = 2.
+Theorem C16_source_words : a32_ldr SRC_RA = ARM_A32_LDR /\ a32_bx SRC_RA = ARM_A32_BX /\
+  t32_ldr_w SRC_RT = ARM_T32_LDR_W /\ t16_bx_nop SRC_RT = ARM_T16_BX_NOP /\
+  0 <= SRC_RA < 16 /\ 8 <= SRC_RT < 15 /\ ARM_PATCH_SIZE = 12 /\ src_fixup_ok = true.
 Proof. exact src_arm_words. Qed.
 Print Assumptions C16_source_words.
 Theorem C16_source_patch : forall src target, snd (arm_patch SRC_RA SRC_RT src target) =
   let is_thumb := Z.odd src in
   let src_ptr := if is_thumb then (src mod W32 - 1) mod W32 else src in
-  let patch := flat_map (le_bytes 4) (if is_thumb then [ARM_T16_LDR_BX; target mod W32; ARM_T16_PAD] else [ARM_A32_LDR; ARM_A32_BX; target mod W32]) in
-  if is_thumb && negb (src_ptr mod 4 =? 0) then ARM_T16_NOP ++ firstn (Z.to_nat (ARM_PATCH_SIZE - ARM_ROTATE)) patch else patch.
+  let patch := flat_map (le_bytes 4) (if is_thumb then [ARM_T32_LDR_W; ARM_T16_BX_NOP; target mod W32] else [ARM_A32_LDR; ARM_A32_BX; target mod W32]) in
+  if is_thumb && negb (src_ptr mod 4 =? 0) then firstn 6 patch ++ skipn 8 patch ++ [0xC0; 0x46] else patch.
 Proof. exact src_arm_patch. Qed.
 Print Assumptions C16_source_patch.
+Theorem C16_source_scratch_registers_are_caller_saved : ~ In SRC_RA aapcs_preserved /\ ~ In SRC_RT aapcs_preserved.
+Proof. exact src_arm_scratch_ok. Qed.
+Print Assumptions C16_source_scratch_registers_are_caller_saved.
